@@ -673,9 +673,22 @@ func VfVersions() {
 // that has a real id.
 func VfVersionsSuspend() {
 	status := []bool{true, false, true, true}
-	n := 3 + zzvf.Choice("fourth_operation", 2)
-	zzvf.Bound("operations_max", 4)
-	vfVersionsBody(n, 3, status)
+	if zzvf.Tier() > 0 {
+		// thorough: two operations while suspended, or a second suspension
+		if zzvf.Choice("second_suspension", 2) == 1 {
+			status = []bool{true, false, true, false, true}
+		} else {
+			status = []bool{true, false, false, true, true}
+		}
+	}
+	kinds := 3
+	if zzvf.Tier() > 0 && zzvf.Choice("all_writer_kinds", 2) == 1 {
+		// multipart completion and copy onto the key as well, on the short status vector
+		status, kinds = []bool{true, false, true, true}, 5
+	}
+	n := len(status) - 1 + zzvf.Choice("last_operation", 2)
+	zzvf.Bound("operations_max", len(status))
+	vfVersionsBody(n, kinds, status)
 }
 
 func vfDropNull(hist []vfVersion) []vfVersion {
@@ -730,6 +743,10 @@ func vfVersionsBody(n, kinds int, status []bool) {
 			if err != nil {
 				return
 			}
+			if !enabled {
+				hist = append(vfDropNull(hist), vfVersion{id: "null", data: b})
+				continue
+			}
 			zzvf.Assert(zzvf.And(res.VersionId != nil, !ids[*res.VersionId]), "every-write-yields-a-new-distinct-version-id")
 			ids[*res.VersionId] = true
 			hist = append(hist, vfVersion{id: *res.VersionId, data: b})
@@ -743,6 +760,10 @@ func vfVersionsBody(n, kinds int, status []bool) {
 			zzvf.Assert(err == nil, "copy-succeeds")
 			if err != nil {
 				return
+			}
+			if !enabled {
+				hist = append(vfDropNull(hist), vfVersion{id: "null", data: b})
+				continue
 			}
 			zzvf.Assert(zzvf.And(out.VersionId != nil, out.VersionId != nil && !ids[*out.VersionId]), "every-write-yields-a-new-distinct-version-id")
 			if out.VersionId == nil {
